@@ -180,15 +180,20 @@ c_Fixed == {tla(FIXED_OBJ)}
     cap = 220 if t == "quick" else 2500
     if len(ohist) > cap:
         ohist = rnd.sample(ohist, cap)
+    for k, h in enumerate(ohist):
+        h["rb_mismatch"] = k % 2 == 1      # every other history: the stored g-function belongs to another borehole radius (radius correction on every grab)
     for h, r in zip(ohist, parallel_map(_exec_object_history, ohist)):
         chk.nontrivial.add(("obj", tuple(map(tuple, h["hist"]))))
         if r.get("bad"):
-            chk.violation(f"C13 object history {h['hist']}: {r['bad'][0]}", {"history": h["hist"], "bad": r["bad"]})
+            chk.violation(f"C13 object history {h['hist']}{' (stored g-function of another borehole radius)' if h.get('rb_mismatch') else ''}: {r['bad'][0]}", {"history": h["hist"], "bad": r["bad"]})
     chk.traces += len(ohist)
     chk.note("object_histories", len(ohist))
     for b in parallel_map(_shared_inputs_case, [0], procs=1)[0]:
         chk.violation(f"C13 shared inputs: {b}", {})
     # --- manager level ---------------------------------------------------------------------------
+    from .p_io import wiring  # noqa: PLC0415
+
+    wiring(chk)      # repeated set_design / replaced input objects: the design that runs is the snapshot of the LAST set_design (Wiring.tla)
     hists = manager_histories(chk, t)
     if len(hists) < 10:
         raise MachineryError("too few manager histories generated")
@@ -282,7 +287,7 @@ def _shared_inputs_case(_):
 _BASE = {}
 
 
-def _mk_ghe(loads=None, months=12):
+def _mk_ghe(loads=None, months=12, gf_rb=None):
     import_repo()
     from ghedesigner.borehole import GHEBorehole  # noqa: PLC0415
     from ghedesigner.coordinates import rectangle  # noqa: PLC0415
@@ -300,7 +305,8 @@ def _mk_ghe(loads=None, months=12):
     coords = rectangle(2, 2, 5.0, 5.0)
     sp = SimulationParameters(1, months, 35.0, 5.0, 135.0, 60.0)
     m_flow = 0.3 / 1000.0 * fluid.rho
-    gfn = calc_g_func_for_multiple_lengths(5.0, [bore.H], bore.r_b, bore.D, m_flow, BHPipeType.SINGLEUTUBE, eskilson_log_times(), coords, fluid, pipe, grout, soil)
+    # gf_rb: radius the stored g-function was computed for; when it differs from the exchanger's, every grab applies the radius correction
+    gfn = calc_g_func_for_multiple_lengths(5.0, [bore.H], bore.r_b if gf_rb is None else gf_rb, bore.D, m_flow, BHPipeType.SINGLEUTUBE, eskilson_log_times(), coords, fluid, pipe, grout, soil)
     return GHE(0.3 * 4, 5.0, BHPipeType.SINGLEUTUBE, fluid, bore, pipe, grout, soil, gfn, sp, profile(9000.0) if loads is None else loads)
 
 
@@ -323,7 +329,8 @@ def _exec_object_history(item):
     with warnings.catch_warnings(), contextlib.redirect_stdout(io.StringIO()):
         warnings.simplefilter("ignore")
         try:
-            g = _mk_ghe()
+            rb = 0.0762 if item.get("rb_mismatch") else None
+            g = _mk_ghe(gf_rb=rb)
             out = None
             for call in item["hist"]:
                 op = call[0]
@@ -342,7 +349,7 @@ def _exec_object_history(item):
             out = (float(g.bhe.b.H).hex(), fhash(g.hp_eft), len(g.times))
             # reference: a fresh object brought to the same (gf, H) without any other simulation, then the last call alone
             last = item["hist"][-1][0]
-            ref = _mk_ghe()
+            ref = _mk_ghe(gf_rb=rb)
             if item["gf"] == "triple":
                 ref.compute_g_functions()
             # height the last call saw
@@ -357,7 +364,7 @@ def _exec_object_history(item):
                 if hsaw is not None:
                     ref.bhe.b.H = hsaw
                 elif isinstance(hcell, list):      # <<"root", gf>> : a sized height - reproduce it with a size on a fresh object of that family
-                    r2 = _mk_ghe()
+                    r2 = _mk_ghe(gf_rb=rb)
                     if hcell[1] == "triple":
                         r2.compute_g_functions()
                     r2.size(TimestepType.HYBRID)
